@@ -65,6 +65,12 @@ fn load_rom(rom_file_name: String) -> Option<emulator::Core> {
   Some(emulator::Core::from_rom_file(&mut rom_file, header))
 }
 
+/// Verification hook: the ROM loader exactly as `main` uses it
+#[cfg(gb_dynarec_verif)]
+pub fn verif_load_rom(rom_file_name: String) -> Option<emulator::Core> {
+  load_rom(rom_file_name)
+}
+
 fn fallback_core() -> emulator::Core {
   println!("No ROM, loading fallback");
   // send "GB" over serial port
